@@ -120,7 +120,9 @@ class GenFacts:
                 for x in ast.walk(fn):
                     if isinstance(x, ast.YieldFrom) and isinstance(x.value, ast.Call):
                         f = src(x.value.func)
-                        if f.startswith('self.') and f[5:] not in names:
+                        # calls of methods the rules know stay opaque `sub` events after splicing; only calls of
+                        # other not-yet-inlined new helpers (or of itself) block the splice
+                        if f.startswith('self.') and f[5:] not in names and (f[5:] not in known or f[5:] == n):
                             ok = False
                 if ok:
                     names.append(n)
@@ -130,6 +132,23 @@ class GenFacts:
             h[f'self.{name}'] = (self.methods[name], self.paths(name))
         self._helpers = h
         return h
+
+    def owners(self, allowed):
+        """`allowed` plus every helper that is spliced into its callers (see helpers()) and whose every call site lies
+        in a function already in the set: what such a helper emits is judged, on every path, by the rules of the
+        functions it is spliced into, so it may do what they may do."""
+        allowed = set(allowed)
+        spliced = {k[5:] for k in self.helpers()}
+        changed = True
+        while changed:
+            changed = False
+            for h in spliced - allowed:
+                callers = {fname for fname, fn in self.methods.items() for x in ast.walk(fn)
+                           if isinstance(x, ast.Call) and src(x.func) == f'self.{h}'}
+                if callers and callers <= allowed:
+                    allowed.add(h)
+                    changed = True
+        return allowed
 
     def inlined(self, name):
         """List of event lists: every path of CodeGen.<name> with small helpers inlined,
